@@ -44,8 +44,11 @@ enum Ch {
 
 #[derive(Debug, Clone, PartialEq)]
 enum Act {
-    /// single managed read on channel (0 sock, 1 pipe, 2 file) asking for `len` bytes (0 = whole buffer)
+    /// single managed read on channel (0 sock, 1 pipe, 2.. file at offset FILE_OFFS[ch - 2]: start, at EOF,
+    /// beyond EOF, 10 bytes before EOF) asking for `len` bytes (0 = whole buffer)
     Managed(usize, usize),
+    /// the peer closes its writing end of the pipe: reads on channel 1 now complete with 0 bytes
+    CloseWriter,
     Multi(usize),
     Feed(usize, usize),
     Poll(u64),
@@ -73,6 +76,7 @@ impl Prog {
                 Act::Multi(c) => json!(["multi", c]),
                 Act::Feed(c, n) => json!(["feed", c, n]),
                 Act::Poll(ms) => json!(["poll", ms]),
+                Act::CloseWriter => json!(["closewriter"]),
                 Act::Pop(i) => json!(["pop", i]),
                 Act::Release(i) => json!(["release", i]),
                 Act::Cancel(i) => json!(["cancel", i]),
@@ -94,6 +98,7 @@ impl Prog {
                     "multi" => Act::Multi(n(1)),
                     "feed" => Act::Feed(n(1), n(2)),
                     "poll" => Act::Poll(n(1) as u64),
+                    "closewriter" => Act::CloseWriter,
                     "pop" => Act::Pop(n(1)),
                     "release" => Act::Release(n(1)),
                     "cancel" => Act::Cancel(n(1)),
@@ -124,7 +129,7 @@ fn generate(rng: &mut Rng, driver: &'static str) -> Prog {
         let a = if nops == 0 || r < 18 {
             nops += 1;
             if rng.chance(1, 2) {
-                Act::Managed(rng.below(3), *rng.pick(&[0usize, 0, 1, 5, buf_len, buf_len + 7]))
+                Act::Managed(*rng.pick(&[0usize, 0, 1, 1, 2, 3, 4, 5]), *rng.pick(&[0usize, 0, 1, 5, buf_len, buf_len + 7]))
             } else {
                 Act::Multi(rng.below(2))
             }
@@ -140,8 +145,10 @@ fn generate(rng: &mut Rng, driver: &'static str) -> Prog {
             Act::Cancel(rng.below(nops))
         } else if r < 95 {
             Act::DropKey(rng.below(nops))
-        } else if r < 99 {
+        } else if r < 97 {
             Act::CheckHeld
+        } else if r < 99 {
+            Act::CloseWriter
         } else {
             acts.push(Act::DropProactor);
             break;
@@ -192,15 +199,20 @@ struct Exec {
     chunks: [Vec<Vec<u8>>; 2],
     /// some op on that channel was let go with data possibly consumed
     lossy: [bool; 2],
-    peers: Vec<OwnedFd>,
+    peers: Vec<Option<OwnedFd>>,
     fds: Vec<Fd>,
     file_content: Vec<u8>,
     viol: Vec<(String, String)>,
     exhausted_seen: bool,
     census_skipped: bool,
+    /// a read that completes with 0 bytes was possible (pipe writer closed, file read at/after EOF)
+    eof_reads: bool,
     held_across_completion: bool,
     drv: &'static str,
 }
+
+const FILE_LEN: usize = 700;
+const FILE_OFFS: [usize; 4] = [0, FILE_LEN, FILE_LEN + 200, FILE_LEN - 10];
 
 fn vio(v: &mut Vec<(String, String)>, rule: &str, ctx: &str, what: String) {
     v.push((format!("C07/{rule}/{ctx}"), what));
@@ -220,8 +232,10 @@ impl Exec {
             self.got[ch].extend_from_slice(&data);
             self.chunks[ch].push(data.clone());
         } else {
-            // file: must equal the file content at offset 0
-            if data[..] != self.file_content[..n.min(self.file_content.len())] {
+            // file: must equal the file content at the offset read
+            let off = FILE_OFFS[ch - 2];
+            let want = &self.file_content[off.min(FILE_LEN)..(off + n).min(FILE_LEN)];
+            if data[..] != *want {
                 vio(&mut self.viol, "wrong-data", &format!("{}/file/{kind}", self.drv),
                     format!("managed file read returned {n} bytes that differ from the file"));
             }
@@ -255,7 +269,7 @@ impl Exec {
 
     fn push_managed(&mut self, ch: usize, len: usize) {
         let (Some(d), Some(pool)) = (self.driver.as_mut(), self.pool.as_ref()) else { return };
-        let fd = self.fds[ch].clone();
+        let fd = self.fds[ch.min(2)].clone();
         macro_rules! go {
             ($op:expr, $variant:ident) => {{
                 match $op {
@@ -282,7 +296,7 @@ impl Exec {
         match ch {
             0 => go!(RecvManaged::new(fd, pool, len, RecvFlags::empty()), RecvManaged),
             1 => go!(ReadManaged::new(fd, pool, len), ReadManaged),
-            _ => go!(ReadManagedAt::new(fd, 0, pool, len), ReadManagedAt),
+            _ => go!(ReadManagedAt::new(fd, FILE_OFFS[ch - 2] as u64, pool, len), ReadManagedAt),
         }
     }
 
@@ -290,6 +304,9 @@ impl Exec {
         let BufResult(r, buf) = res;
         match r {
             Ok(n) => {
+                if n == 0 {
+                    self.eof_reads = true;
+                }
                 if let Some(buf) = buf {
                     if n > 0 {
                         self.hold(buf, n, ch, kind);
@@ -335,7 +352,7 @@ impl Exec {
     }
 
     fn feed(&mut self, ch: usize, n: usize) {
-        let peer = &self.peers[ch];
+        let Some(peer) = self.peers[ch].as_ref() else { return };
         set_nonblocking(peer.as_raw_fd(), true);
         let start = self.fed[ch].len();
         let data: Vec<u8> = (start..start + n.min(4096)).map(|o| pat(0xC07 + ch as u64, o)).collect();
@@ -596,7 +613,7 @@ fn run_prog(p: &Prog, canary: bool) -> Result<Outcome, String> {
     let (sa, sb) = mk_socketpair(libc::SOCK_STREAM);
     let (pr, pw) = mk_pipe();
     let path = std::env::temp_dir().join(format!("vdrv-c07-{}", std::process::id()));
-    let file_content: Vec<u8> = (0..700).map(|o| pat(0xF07, o)).collect();
+    let file_content: Vec<u8> = (0..FILE_LEN).map(|o| pat(0xF07, o)).collect();
     std::fs::write(&path, &file_content).map_err(|e| e.to_string())?;
     let f = std::fs::File::open(&path).map_err(|e| e.to_string())?;
     if dt == DriverType::Poll {
@@ -612,7 +629,7 @@ fn run_prog(p: &Prog, canary: bool) -> Result<Outcome, String> {
         got: [Vec::new(), Vec::new()],
         chunks: [Vec::new(), Vec::new()],
         lossy: [false, false],
-        peers: vec![sb, pw],
+        peers: vec![Some(sb), Some(pw)],
         fds: vec![
             SharedFd::new(ProbeFd::new(sa)),
             SharedFd::new(ProbeFd::new(pr)),
@@ -622,6 +639,7 @@ fn run_prog(p: &Prog, canary: bool) -> Result<Outcome, String> {
         viol: Vec::new(),
         exhausted_seen: false,
         census_skipped: false,
+        eof_reads: false,
         held_across_completion: false,
         drv: p.driver,
     };
@@ -634,6 +652,10 @@ fn run_prog(p: &Prog, canary: bool) -> Result<Outcome, String> {
             Act::Multi(c) => ex.push_multi(*c),
             Act::Feed(c, n) => ex.feed(*c, *n),
             Act::Poll(ms) => ex.poll(*ms),
+            Act::CloseWriter => {
+                ex.peers[1] = None;
+                ex.eof_reads = true;
+            }
             Act::Pop(i) => ex.pop(*i),
             Act::Release(i) => {
                 if *i < ex.held.len() {
@@ -712,7 +734,7 @@ fn run_prog(p: &Prog, canary: bool) -> Result<Outcome, String> {
             format!("a released {}-byte block was written after its release (offset {}, {} bytes changed)", c.size, c.offset, c.changed)));
     }
     let sig = format!(
-        "{}|pool{}|len{}|held{}|{}|{}|{}",
+        "{}|pool{}|len{}|held{}|{}|{}|{}|{}",
         p.driver,
         p.pool_size,
         p.buf_len,
@@ -720,6 +742,7 @@ fn run_prog(p: &Prog, canary: bool) -> Result<Outcome, String> {
         if ex.held_across_completion { "held-across-completion" } else { "-" },
         if ex.exhausted_seen { "exhausted" } else { "-" },
         if dropped { "proactor-dropped" } else { "census" },
+        if ex.eof_reads { "eof-read" } else { "-" },
     );
     if ex.census_skipped {
         return Err("pool jobs still running after 3 s: census skipped".into());
